@@ -58,9 +58,9 @@ func neighbourFn(kind int) func(string) []string {
 
 func init() {
 	engine.Register(&engine.Check{
-		ID:        "C08",
-		Title:     "Neighbourhood queries return exactly the surrounding voxels",
-		Technique: "exhaustive choice-tree enumeration (E1) of IDs x stencils and of short voxel lists x layer counts, against the set comprehension over the modular-shift reference model",
+		ID:          "C08",
+		Title:       "Neighbourhood queries return exactly the surrounding voxels",
+		Technique:   "exhaustive choice-tree enumeration (E1) of IDs x stencils and of short voxel lists x layer counts, against the set comprehension over the modular-shift reference model",
 		Assumptions: []string{"indices outside the alphabet classes and lists longer than 3 are not covered", "reference model: ref.Vox.Shift"},
 		Phases: func(tier string) []engine.Phase {
 			zs := zooms(tier)
